@@ -458,18 +458,22 @@ def reviewed : List (String × String × String × String) := [
   -- table helper on a row / column of the caller's fresh table (rebound to an appended copy when short)
   ("okdmr/dmrlib/etsi/fec/vbptc_68_28.py", "VBPTC6828.set_parity", "returns-argument", "column [parameter is also rebound in the function]"),
   -- aliased as self.full_bits, never written by the library: modelled (`burstBits`)
-  ("okdmr/dmrlib/etsi/layer2/burst.py", "Burst.__init__", "mutable-default", "full_bits = bitarray([0] * 264) [call bitarray]"),
+  -- (round 5: the row now says how the default is used) stored AS IS: every Burst built without full_bits holds the one default bitarray - the library never writes to it, a caller who edits burst.full_bits in place changes every later Burst(); reported (construction probe, c19.aliases.json)
+  ("okdmr/dmrlib/etsi/layer2/burst.py", "Burst.__init__", "mutable-default", "full_bits = bitarray([0] * 264) [call bitarray] -> self.full_bits: as is; self.info_bits_original: derived value; self.voice_bits: derived value"),
   -- lazy per-object memo of a value derived from the object's own data
   ("okdmr/dmrlib/etsi/layer2/burst.py", "Burst.target_radio_id", "self-mutation", "self: self._target_radio_id =; self._target_radio_id_resolve_attempt ="),
   ("okdmr/dmrlib/etsi/layer2/pdu/csbk.py", "CSBK", "class-mutable", "TSCC_BACKOFF_MAP: dict"),
   -- only sliced: modelled (`csbkParams`)
-  ("okdmr/dmrlib/etsi/layer2/pdu/csbk.py", "CSBK.__init__", "mutable-default", "broadcast_params = bitarray() [call bitarray]"),
+  -- (round 5) stored AS IS, only sliced by the library; same caveat as Burst.full_bits (construction probe, c19.aliases.json)
+  ("okdmr/dmrlib/etsi/layer2/pdu/csbk.py", "CSBK.__init__", "mutable-default", "broadcast_params = bitarray() [call bitarray] -> self.broadcast_params: as is"),
   -- per-object: fills crc from the object's own fields (called by the constructor)
   ("okdmr/dmrlib/etsi/layer2/pdu/csbk.py", "CSBK.calculate_crc_ccit", "self-mutation", "self: self.crc ="),
   -- only concatenated: modelled (`dhPadding`)
-  ("okdmr/dmrlib/etsi/layer2/pdu/data_header.py", "DataHeader.__init__", "mutable-default", "bit_padding = bitarray() [call bitarray]"),
+  -- (round 5) stored AS IS, only concatenated by the library; same caveat (construction probe, c19.aliases.json)
+  ("okdmr/dmrlib/etsi/layer2/pdu/data_header.py", "DataHeader.__init__", "mutable-default", "bit_padding = bitarray() [call bitarray] -> self.bit_padding: as is"),
   -- sliced into a copy on construction: modelled (`soReserved`)
-  ("okdmr/dmrlib/etsi/layer3/elements/service_options.py", "ServiceOptions.__init__", "mutable-default", "reserved = bitarray('00') [call bitarray]"),
+  -- (round 5) the ONE mutable default that is copied on construction (slice): objects built with the default own their two bits.  A change to `as is` changes this row
+  ("okdmr/dmrlib/etsi/layer3/elements/service_options.py", "ServiceOptions.__init__", "mutable-default", "reserved = bitarray('00') [call bitarray] -> self.reserved: slice copy"),
   -- the parameter name is rebound to the new object before the attribute writes: no write to the argument
   ("okdmr/dmrlib/hytera/hytera_ipsc.py", "HyteraIPSC.from_ipsc_bytes", "param-mutation", "ipsc: ipsc.first_header =; ipsc.payload_pad =; ipsc.reserved_1 =; ipsc.reserved_2a =; ipsc.reserved_2b =; ipsc.reserved_3 =; ipsc.reserved_7a =; ipsc.second_header = [parameter is also rebound in the function]"),
   -- the parameter name is rebound to the NEW HyteraIPSC object, which is what is returned; the argument octets are only sliced
@@ -488,11 +492,13 @@ def reviewed : List (String × String × String × String) := [
   -- date.today(): only inside the default argument above / explicit zero()
   ("okdmr/dmrlib/hytera/pdu/location_protocol.py", "GPSData.zero", "ambient-read", "datetime.time"),
   -- GPSData.zero() evaluated at import (date.today()); immutable afterwards; reaches as_bytes of a default-built StandardReport only
-  ("okdmr/dmrlib/hytera/pdu/location_protocol.py", "LocationProtocol.__init__", "mutable-default", "gpsdata = GPSData.zero() [call GPSData.zero]"),
+  -- (round 5) stored AS IS: every LocationProtocol built without gpsdata holds the one GPSData.zero() of the import; same caveat (construction probe, c19.aliases.json)
+  ("okdmr/dmrlib/hytera/pdu/location_protocol.py", "LocationProtocol.__init__", "mutable-default", "gpsdata = GPSData.zero() [call GPSData.zero] -> self.gpsdata: as is"),
   -- the ONE wall-clock read at import: the default GPSData.zero() carries the import day; reaches as_bytes of a default-built StandardReport only (harness: lp.default_gps compares it with the import date; the eight clock settings are applied before import). No parse path reads it
   ("okdmr/dmrlib/hytera/pdu/location_protocol.py", "LocationProtocol.__init__.<default>", "ambient-read-at-import", "datetime.date.today() through GPSData.zero()"),
   -- aliased as self.status_change_settings, only iterated: modelled (`rcpSettings`)
-  ("okdmr/dmrlib/hytera/pdu/radio_control_protocol.py", "RadioControlProtocol.__init__", "mutable-default", "status_change_settings = dict() [call dict]"),
+  -- (round 5) stored AS IS, only iterated by the library; same caveat (construction probe, c19.aliases.json)
+  ("okdmr/dmrlib/hytera/pdu/radio_control_protocol.py", "RadioControlProtocol.__init__", "mutable-default", "status_change_settings = dict() [call dict] -> self.status_change_settings: as is"),
   ("okdmr/dmrlib/hytera/snmp.py", "<module>", "module-global", "community: call sys.argv[2].lower"),
   ("okdmr/dmrlib/hytera/snmp.py", "SNMP", "class-mutable", "ALL_FLOATS: list"),
   ("okdmr/dmrlib/hytera/snmp.py", "SNMP", "class-mutable", "ALL_KNOWN: list"),
@@ -508,9 +514,9 @@ def reviewed : List (String × String × String × String) := [
   ("okdmr/dmrlib/motorola/lrrp.py", "LRRP", "class-mutable", "QUERY_REQUEST_MESSAGES_ELEMENT_TOKENS: dict"),
   -- hands out the class-level attribute table itself (inside a fresh list): the library's own callers only read it (get_attribute copies the definition it returns); the table is in the model state (`lrrpAttributes`, invariant `Inv`) and in the run-time probe, a write through it by the library would break both.  A CALLER that edits the table it was handed edits library state: out of the property (no library call), noted as a residual risk
   ("okdmr/dmrlib/motorola/lrrp.py", "LRRP.get_known_attributes", "returns-shared", "cls.ATTRIBUTE_TOKENS"),
-  -- as above: the three class-level element-token tables are handed out inside a fresh list; read-only use by get_token / from_bytes (get_token copies the definition and, since d571898, its attribute list); tables are model state (`lrrpAnswerTokens`) and probed
+  -- as above (`lrrpRequestTokens`)
   ("okdmr/dmrlib/motorola/lrrp.py", "LRRP.get_known_tokens", "returns-shared", "cls.ANSWER_AND_REPORT_MESSAGES_ELEMENT_TOKENS"),
-  -- as above (`lrrpRequestTokens` / `lrrpAnswerTokens` both start with the common table)
+  -- as above (`lrrpRequestTokens`)
   ("okdmr/dmrlib/motorola/lrrp.py", "LRRP.get_known_tokens", "returns-shared", "cls.COMMON_ELEMENT_TOKENS"),
   -- as above (`lrrpRequestTokens`)
   ("okdmr/dmrlib/motorola/lrrp.py", "LRRP.get_known_tokens", "returns-shared", "cls.QUERY_REQUEST_MESSAGES_ELEMENT_TOKENS"),
@@ -538,9 +544,12 @@ def reviewed : List (String × String × String × String) := [
   ("okdmr/dmrlib/protocols/hytera/p2p_datagram_protocol.py", "P2PDatagramProtocol.handle_registration", "param-mutation", "data: data.append(); data[..] =; data[..] op= [parameter is also rebound in the function]"),
   -- storage (C20): returns the value it was given to store
   ("okdmr/dmrlib/storage/repeater.py", "Repeater.attr", "returns-argument", "value"),
-  ("okdmr/dmrlib/storage/repeater.py", "Repeater.patch", "mutable-default", "patch = {} [dict]"),
-  ("okdmr/dmrlib/storage/repeater_storage.py", "RepeaterStorage.match_incoming", "mutable-default", "patch = {} [dict]"),
-  ("okdmr/dmrlib/storage/repeater_storage.py", "RepeaterStorage.save", "mutable-default", "patch = {} [dict]"),
+  -- storage (C20): the default dict is only read (iterated), never stored
+  ("okdmr/dmrlib/storage/repeater.py", "Repeater.patch", "mutable-default", "patch = {} [dict] -> not stored in an attribute"),
+  -- storage (C20): the default dict is only handed on to Repeater.patch, never stored
+  ("okdmr/dmrlib/storage/repeater_storage.py", "RepeaterStorage.match_incoming", "mutable-default", "patch = {} [dict] -> not stored in an attribute"),
+  -- storage (C20): the default dict is only handed on, never stored
+  ("okdmr/dmrlib/storage/repeater_storage.py", "RepeaterStorage.save", "mutable-default", "patch = {} [dict] -> not stored in an attribute"),
   -- storage (C20): returns the repeater it was given to save
   ("okdmr/dmrlib/storage/repeater_storage.py", "RepeaterStorage.save", "returns-argument", "rpt"),
   -- transmission tracker (C08): sequence / stream numbers are set on the burst object that process_packet hands back (the argument); outside the codec entry points
